@@ -358,7 +358,7 @@ def run(ck):
             proof_ok = False
     exe = recsolver.build(ck)
     drv = ck.driver('drv_c04')
-    ncases = 120 if ck.tier == 'quick' else 900
+    ncases = 120 if ck.tier == 'quick' else 2500
     st = Stats()
     work = os.path.join(BUILD, 'c04')
     shutil.rmtree(work, ignore_errors=True)
@@ -900,10 +900,10 @@ def oracle(ck, c, st):
         st.oracle['con_' + mt[0]] = st.oracle.get('con_' + mt[0], 0) + 1
 
     def bad(sig, what, f, extra=None):
-        c.oracle_failed = True
         o = replay_obj(c)
         o.update({'flow': f.name if f else 'solution', 'detail': extra})
-        ck.add_violation(sig, what, o, found_input=True)
+        if ck.add_violation(sig, what, o, found_input=True):     # False: an open known finding
+            c.oracle_failed = True
 
     def chk(key):
         st.oracle[key] = st.oracle.get(key, 0) + 1
@@ -1136,7 +1136,7 @@ def sanitizer_stream(ck, cases, st):
     todo = [c for c in cases if not c.problem]
     todo.sort(key=lambda c: -sum(1 for k in ('x', 'pi', 'varstt', 'constt', 'iisvar', 'iiscon')
                                  if c.script.get(k) is not None and len(c.script[k]) < (c.sizes[0] if k in ('x', 'varstt', 'iisvar') else c.sizes[1].get(CG_LIN, 0))))
-    todo = todo[:(20 if ck.tier == 'quick' else 150)]
+    todo = todo[:(20 if ck.tier == 'quick' else 250)]
     nrun = 0
     for c in todo:
         r = recsolver.run(exe, c.stub, options=c.options, accept=c.accept, script=c.stub + '.script', env=dict(env_of(c, c.stub + '.calls'), **san_env), timeout=300)
@@ -1254,6 +1254,18 @@ def verdicts(ck, cases, st, proof_ok, failing):
     for c in cases:
         if c.problem:
             problems.setdefault(c.problem.split(':')[0], []).append(c)
+            rc = c.r.get('rc')
+            if rc != 0:       # the real driver died (signal / abort / timeout) while converting or transferring values
+                nv = c.sizes[0] if hasattr(c, 'sizes') else None
+                shorts = [v for v in [getattr(c, 'script', {}).get('x')] + [cl.get('V') for cl in getattr(c, 'calls', []) if cl['dir'] == 'post' and cl['kind'] == 'sol']
+                          if v and nv is not None and len(v) < nv]
+                o = replay_obj(c) if os.path.exists(c.stub + '.nl') else {}
+                o.update({'rc': rc, 'stderr_tail': (c.r.get('err') or '')[-800:]})
+                if shorts:
+                    ck.add_violation('post:sol:short-primal-vector-solution-checker-reads-out-of-bounds',
+                                     'the real driver died (rc=%s, %s) in a run whose solver answer has a non-empty primal vector shorter than the %d solver variables' % (rc, (c.r.get('err') or '').strip()[-80:], nv), o, found_input=True)
+                else:
+                    ck.add_violation('real-driver-crash', 'the real driver died: rc=%s %s' % (rc, (c.r.get('err') or '').strip()[-200:]), o, found_input=True)
             continue
         if c.graph_error:
             ck.add_violation('graph:' + c.graph_error.split(':')[0], 'the real link graph cannot be represented in the model: ' + c.graph_error,
